@@ -541,11 +541,20 @@ func abandoned(id string, seed uint64) runner.Result {
 			}
 		case 1: // normal call with metadata
 			b = refwire.Encode(b, refwire.Frame{Stream: sid, Message: 1, Kind: 7, Done: true, Data: enc})
-			b = refwire.Encode(b, refwire.Frame{Stream: sid, Message: 2, Kind: 1, Done: true, Data: []byte("/m")})
-			b = refwire.Encode(b, refwire.Frame{Stream: sid, Message: 3, Kind: 2, Done: true, Data: payload.Make(sid, 0, 0, 0, 4)})
-			b = refwire.Encode(b, refwire.Frame{Stream: sid, Message: 4, Kind: 6, Done: true})
+			m := uint64(2)
+			what := "call+md"
+			if r.Intn(3) == 0 {
+				// a client of a later version announces something this server does not know, in a packet
+				// with the control bit (which says: ignore me if you do not understand), before its invoke
+				b = refwire.Encode(b, refwire.Frame{Stream: sid, Message: m, Kind: uint8(20 + r.Intn(40)), Done: true, Control: true, Data: []byte("hint")})
+				m++
+				what = "call+md+unknown-control-packet-before-the-invoke"
+			}
+			b = refwire.Encode(b, refwire.Frame{Stream: sid, Message: m, Kind: 1, Done: true, Data: []byte("/m")})
+			b = refwire.Encode(b, refwire.Frame{Stream: sid, Message: m + 1, Kind: 2, Done: true, Data: payload.Make(sid, 0, 0, 0, 4)})
+			b = refwire.Encode(b, refwire.Frame{Stream: sid, Message: m + 2, Kind: 6, Done: true})
 			want[sid] = md
-			desc = append(desc, fmt.Sprintf("s%d:call+md", sid))
+			desc = append(desc, fmt.Sprintf("s%d:%s", sid, what))
 		default: // call without metadata
 			b = refwire.Encode(b, refwire.Frame{Stream: sid, Message: 1, Kind: 1, Done: true, Data: []byte("/m")})
 			b = refwire.Encode(b, refwire.Frame{Stream: sid, Message: 2, Kind: 2, Done: true, Data: payload.Make(sid, 0, 0, 0, 4)})
